@@ -376,6 +376,42 @@ pub fn run(tier: Tier) -> i32 {
             }
         }
     }
+    // maps keyed by integers handed to the serde route (ids, hashes): refused, or the key keeps
+    // its exact decimal value — no width wraps on the way
+    {
+        use serde::Serialize;
+        use std::collections::BTreeMap;
+        macro_rules! keyed {
+            ($t:ty, $pts:expr) => {
+                for k in $pts {
+                    acc.count("executions", 1);
+                    let m: BTreeMap<$t, i8> = [(k, 1i8)].into_iter().collect();
+                    match catch(|| m.serialize(reval::value::ser::ValueSerializer)) {
+                        Err(p) => bad(&mut acc, format!("int-key/{}/panic", stringify!($t)), format!("serializing a map keyed by {k}{} panicked: {p}", stringify!($t))),
+                        Ok(Err(_)) => acc.outcome("int-key:refused"),
+                        Ok(Ok(v)) => {
+                            let want = RV::Map([(k.to_string(), RV::Int(1))].into_iter().collect());
+                            if RV::from_value(&v) != want {
+                                bad(&mut acc, format!("int-key/{}/changed", stringify!($t)), format!("map key {k}{} became {}", stringify!($t), RV::from_value(&v).show()));
+                            }
+                            acc.outcome("int-key:text");
+                        }
+                    }
+                }
+            };
+        }
+        keyed!(i8, [i8::MIN, -1, 0, i8::MAX]);
+        keyed!(u8, [0, u8::MAX]);
+        keyed!(i16, [i16::MIN, i16::MAX]);
+        keyed!(u16, [0, u16::MAX]);
+        keyed!(i32, [i32::MIN, i32::MAX]);
+        keyed!(u32, [0, u32::MAX]);
+        keyed!(i64, [i64::MIN, -1, 0, i64::MAX]);
+        keyed!(u64, [0, i64::MAX as u64, i64::MAX as u64 + 1, u64::MAX - 1, u64::MAX]);
+        keyed!(usize, [0, isize::MAX as usize, isize::MAX as usize + 1, usize::MAX]);
+        keyed!(i128, [i128::MIN, i64::MIN as i128 - 1, u64::MAX as i128 + 1, i128::MAX]);
+        keyed!(u128, [0, u64::MAX as u128 + 1, i128::MAX as u128, i128::MAX as u128 + 1, u128::MAX]);
+    }
     // floats
     for f in [0.0f64, -0.0, 1.5, f64::MAX, f64::MIN_POSITIVE, 5e-324, f64::INFINITY, f64::NEG_INFINITY, f64::NAN, 0.1, 1e300] {
         acc.count("executions", 1);
